@@ -144,12 +144,43 @@ func run(seed int64, n int, dir string, _ []string) {
 		_ = os.MkdirAll(base, 0o755)
 		writeCSV(filepath.Join(base, "big.csv"), []string{"id", "a", "b", "c"}, big)
 		writeCSV(filepath.Join(base, "small.csv"), []string{"id", "b", "d"}, small)
+		// the same big table in every other format: each loader has its own parallel conversion step
+		{
+			var jl, lt, ts, js strings.Builder
+			ts.WriteString("id\ta\tb\tc\n")
+			js.WriteString("[")
+			for i, r := range big {
+				fmt.Fprintf(&jl, "{\"id\":%s,\"a\":%s,\"b\":%s,\"c\":%q}\n", r[0], r[1], r[2], r[3])
+				fmt.Fprintf(&lt, "id:%s\ta:%s\tb:%s\tc:%s\n", r[0], r[1], r[2], r[3])
+				ts.WriteString(strings.Join(r, "\t") + "\n")
+				if i > 0 {
+					js.WriteString(",")
+				}
+				fmt.Fprintf(&js, "{\"id\":%s,\"a\":%s,\"b\":%s,\"c\":%q}", r[0], r[1], r[2], r[3])
+			}
+			js.WriteString("]")
+			_ = os.WriteFile(filepath.Join(base, "bigl.jsonl"), []byte(jl.String()), 0o644)
+			_ = os.WriteFile(filepath.Join(base, "bigt.ltsv"), []byte(lt.String()), 0o644)
+			_ = os.WriteFile(filepath.Join(base, "bigv.tsv"), []byte(ts.String()), 0o644)
+			_ = os.WriteFile(filepath.Join(base, "bigj.json"), []byte(js.String()), 0o644)
+		}
 
 		queries := []string{
 			"SELECT id, a + 1 AS a1, c FROM big WHERE a > 3 AND c <> 'x'",
 			"SELECT b, COUNT(*), SUM(a), MIN(a), MAX(a), AVG(a), LISTAGG(id, ',') FROM big GROUP BY b",
 			"SELECT b, c, COUNT(*) FROM big GROUP BY b, c HAVING COUNT(*) > 1",
 			"SELECT DISTINCT b, c FROM big",
+			// every file format through its own loader
+			"SELECT id, a, b, c FROM bigl WHERE a >= 0",
+			"SELECT id, a, b, c FROM bigt WHERE a >= 0",
+			"SELECT id, a, b, c FROM bigv WHERE a >= 0",
+			"SELECT id, a, b, c FROM bigj WHERE a >= 0",
+			"SELECT COUNT(*) FROM bigl WHERE 't' || id <> 't' || id OR c IS NULL",
+			// several join columns: column order and row order of USING / NATURAL joins
+			"SELECT * FROM big x JOIN small y USING (id, b)",
+			"SELECT * FROM big NATURAL JOIN small",
+			"SELECT * FROM big x FULL JOIN (SELECT id, b, a AS a2, c AS c2 FROM big WHERE id % 3 = 0) z USING (b, id)",
+			"SELECT * FROM (SELECT id, a, b, c FROM big) p NATURAL LEFT JOIN (SELECT a, b, c, id FROM big WHERE a > 0) q",
 			// floating-point aggregates: addition is not associative, so the totals must not depend on how a long
 			// value list could be cut into ranges
 			"SELECT SUM(id * 0.1), AVG(id * 0.1), SUM(a / 7.0), STDEV(a * 0.3), VAR(id * 0.01), MEDIAN(a * 1.1) FROM big",
